@@ -436,3 +436,11 @@ Proof.
   change (Zpos (3 * 1)) with 3 in Hup.
   destruct Hc as [-> | ->]; lia.
 Qed.
+
+(* ---- the repaired defects, on record ------------------------------------------------------- *)
+Lemma sami_float_start_refuted : exists t, (0 <= t)%Q /\ parse_int (sami_token_unfixed t) = None.
+Proof. exists (2000001 # 2). split; [discriminate|]. vm_compute. reflexivity. Qed.
+
+Lemma sami_blank_after_ms0_refuted :
+  exists caps, ok_sami_ms caps (map sev_obs (sami_events_unfixed caps None 0)) = false.
+Proof. exists [(inject_Z 0, inject_Z 900); (inject_Z 5000000, inject_Z 6000000)]. vm_compute. reflexivity. Qed.
